@@ -88,14 +88,15 @@ def convection_order(ctx, rng, idx):
     ctx.nontrivial("conv", rname0, a, L, modes, iname)
 
 
-def _riemann_data(rng, gam):
+def _riemann_data(rng, gam, strong=False):
+    e, m, rmax = (2.0, 2.5, 1e4) if strong else (0.5, 0.9, 10)       # strong: ratios up to 1e4, supersonic streams of either sign
     for _ in range(100):
-        rl, rr = 10 ** rng.uniform(-0.5, 0.5, 2); pl, pr = 10 ** rng.uniform(-0.5, 0.5, 2)
+        rl, rr = 10 ** rng.uniform(-e, e, 2); pl, pr = 10 ** rng.uniform(-e, e, 2)
         cl, cr = np.sqrt(gam * pl / rl), np.sqrt(gam * pr / rr)
-        ul, ur = rng.uniform(-0.9, 0.9) * cl, rng.uniform(-0.9, 0.9) * cr
+        ul, ur = rng.uniform(-m, m) * cl, rng.uniform(-m, m) * cr
         if rng.random() < 0.3:
             ul = ur = 0.0
-        if (ur - ul) < 0.5 * 2 / (gam - 1) * (cl + cr) and max(rl / rr, rr / rl, pl / pr, pr / pl) <= 10 and max(abs(np.log(pl / pr)), abs(np.log(rl / rr)), abs(ul - ur) / cl) > 0.3:
+        if (ur - ul) < 0.5 * 2 / (gam - 1) * (cl + cr) and max(rl / rr, rr / rl, pl / pr, pr / pl) <= rmax and max(abs(np.log(pl / pr)), abs(np.log(rl / rr)), abs(ul - ur) / cl) > 0.3:
             return (float(rl), float(ul), float(pl)), (float(rr), float(ur), float(pr))
     raise core.Skip("no data")
 
@@ -159,13 +160,19 @@ def reference_riemann(ctx, rng, idx):
         pb = (sr.Sod_subsonic if idx % 10 == 0 else sr.Sod_supersonic)(model)
         WL, WR = tuple(pb.bcL()), tuple(pb.bcR())
     else:
-        WL, WR = _riemann_data(rng, gam)
+        WL, WR = _riemann_data(rng, gam, strong=bool(rng.random() < 0.4))
         pb = sr.riemann(model, list(WL), list(WR))
-    n = 200
-    mesh = fmesh.unimesh(ncell=n, length=2.0, x0=-1.0)
+    # any mesh around the origin: uniform or not, any size and position of the initial discontinuity inside it
+    n = int(rng.integers(20, 400))
+    Lm = float(10 ** rng.uniform(-1, 1)); xo = -Lm * float(rng.uniform(0.1, 0.9))
+    if rng.random() < 0.5:
+        mesh = fmesh.unimesh(ncell=n, length=Lm, x0=xo)
+    else:
+        mesh = fmesh.refinedmesh(ncell=n, length=Lm, ratio=float(rng.uniform(0.3, 3)))
+        mesh = gen.mesh_from_faces(np.asarray(mesh.xf) + xo)
     sl, srr = refs.riemann_speeds(WL, WR, gam)
-    t = float(rng.uniform(0.2, 0.9) / max(abs(sl), abs(srr)))
-    ctx.describe(gamma=gam, WL=WL, WR=WR, t=t)
+    t = float(rng.uniform(0.05, 0.9) * min(-xo, Lm + xo) / max(abs(sl), abs(srr)))
+    ctx.describe(gamma=gam, WL=WL, WR=WR, t=t, mesh={"ncell": n, "length": Lm, "x0": xo, "class": type(mesh).__name__})
     got = pb.primdata(mesh, t)
     xi = mesh.centers() / t
     rho, u, p, (ps, us) = refs.exact_riemann(WL, WR, gam, xi)
@@ -235,10 +242,12 @@ def reference_nozzle(ctx, rng, idx):
     import flowdyn.solution.euler_nozzle as sn
     gam = float(rng.choice([1.4, 1.4, 1.35, 1.3]))
     model = euler.nozzle(lambda x: 1 + 0 * x, gamma=gam)
-    n = int(rng.choice([50, 100, 150]))
+    n = int(rng.choice([50, 100, 150, int(rng.integers(20, 400))]))
     x = (np.arange(n) + 0.5) / n
-    xt = float(rng.uniform(0.3, 0.6)); c1, c2 = float(rng.uniform(0.3, 1.5)), float(rng.uniform(0.3, 1.5))
+    xt = float(rng.uniform(0.15, 0.8)); c1, c2 = float(rng.uniform(0.3, 1.5)), float(rng.uniform(0.3, 1.5))
     section = 1.0 + np.where(x < xt, c1 * (x - xt) ** 2 / xt ** 2, c2 * (x - xt) ** 2 / (1 - xt) ** 2)
+    if rng.random() < 0.4:
+        section = section * float(10 ** rng.uniform(-8, 8))        # the units of the area do not matter (only area ratios enter)
     it = int(np.argmin(section))
     Ae_At = section[-1] / section[it]
     Mref, Ptref, Psref, _, _, (NPR0, NPRsw) = nozzle_reference(section, gam, 1.01)
